@@ -746,8 +746,27 @@ def gen_C16(rng):
 def gen_C13(rng):
     """End-to-end transfers through a manager with max_bandwidth set."""
     sc = base(rng, [('upload', 4), ('download', 4)], nmax=3, short_reads=True, maxsize=36)
-    sc['config']['max_bandwidth'] = rng.choice([8, 64, 1000])
-    sc['knobs']['bw_threshold'] = rng.choice([1, 4, 16, 256 * 1024])
+    cfg = sc['config']
+    if rng.random() < 0.7:
+        # transfers that are large against the limiter's batching threshold and
+        # the read sizes, so that the burst allowance is small against the volume
+        cfg['multipart_chunksize'] = rng.randint(20, 60)
+        cfg['multipart_threshold'] = rng.randint(10, 120)
+        cfg['io_chunksize'] = rng.randint(2, 4)
+        sc['knobs']['sock_chunk'] = rng.randint(2, 4)
+        sc['knobs']['sign_chunk'] = 1 << 20
+        for t in sc['transfers']:
+            t['size'] = rng.randint(60, 320)
+            for sub in t['subs']:
+                if sub.get('provide_size') is not None:
+                    sub['provide_size'] = t['size']
+        sc['config']['max_bandwidth'] = rng.choice([16, 64])
+        sc['knobs']['bw_threshold'] = rng.choice([1, 2, 4])
+        sc['strategy'] = gen_strategy(rng, est_steps(sc['transfers'], cfg))
+        sc['max_steps'] = 80 * est_steps(sc['transfers'], cfg) + 40000
+    else:
+        sc['config']['max_bandwidth'] = rng.choice([8, 64, 1000])
+        sc['knobs']['bw_threshold'] = rng.choice([1, 4, 16, 256 * 1024])
     sc['knobs']['latency'] = 'none'
     sc['knobs']['pre_read'] = rng.random() < 0.2
     sc['knobs']['sign_read'] = rng.random() < 0.3
